@@ -317,7 +317,7 @@ CLAIMED = {
              "(raw_walk_finds_stable_and_sound; composed with the executor: walk_over_history, walk_over_history_never_stuck - steps "
              "interleaved with set/delete calls, pruning on or off, under the history's run-level premise only; when every prefix is taken from the fog no step is rejected: raw_walk_never_stuck; the premise SchedOk is what earlier_versions_consistent provides along executor "
              "histories). Tie: real walks with the real cache against the model, each whole step compared with cstep, cstepD and "
-             "cstepDR (retry included, cache keys compared) as one transition; a bystander walk with its own cache is judged model-free. TERMINATION of whole walks (Props/C09Termination.lean): at all three levels - abstract walk, walk with the frontier cache, raw-level walk over root hash + database + cache of raw bodies with retry, the trie modified between steps - number of steps + measure of the fog left <= 17^(L+1) while the consulted versions store keys of at most L nibbles (walk_length_bounded, concrete_walk_length_bounded, raw_walk_length_bounded, raw_walk_complete_at_bound); with raw_walk_never_stuck a walk loop must reach the complete fog; applied to the concrete walk of NonVacuity8 (NonVacuity10).",
+             "cstepDR (retry included, cache keys compared) as one transition; a bystander walk with its own cache is judged model-free. TERMINATION of whole walks (Props/C09Termination.lean): at all three levels - abstract walk, walk with the frontier cache, raw-level walk over root hash + database + cache of raw bodies with retry, the trie modified between steps - number of steps + measure of the fog left <= 17^(L+1) while the consulted versions store keys of at most L nibbles (walk_length_bounded, concrete_walk_length_bounded, raw_walk_length_bounded, raw_walk_complete_at_bound); with raw_walk_never_stuck a walk loop must reach the complete fog; applied to the concrete walk of NonVacuity8 (NonVacuity10). WALKS INTERLEAVED WITH squash_changes BLOCKS (Props/C09Blocks.lean, non-pruning trie): along a history with blocks no database binding is ever lost (history_blocks_preserves), so the schedule of a walk whose steps see the world between the steps of such a history satisfies SchedOk (schedOk_of_history_with_blocks) and the raw-level walk never raises, is sound and finds every key that kept its value (walk_over_history_with_blocks), under Good' and the two physical side conditions at each walk step.",
         technique="Lean 4 proof (walk invariant over arbitrary schedules, well-founded measure) + correspondence check on real walks",
         design_ref="6/C09"),
     "C18": dict(
